@@ -7,6 +7,9 @@ def handle (fn : String) (args : List Json) : String :=
   | "compact" => match args with
     | [a0] => (do let x0 ← Wire.decStr a0; pure (Wire.respondWith Wire.encStr (Gen.in__gstin.compact x0)) : Option String).getD "badargs"
     | _ => "badargs"
+  | "info" => match args with
+    | [a0] => (do let x0 ← Wire.decStr a0; pure (Wire.respondWith (fun r__ => match r__ with | (f0__, f1__, f2__, f3__, f4__) => Json.mkObj [("d", Json.arr #[Json.arr #[Wire.encStr ([115, 116, 97, 116, 101] : Str), (Wire.encOpt Wire.encStr) f0__], Json.arr #[Wire.encStr ([112, 97, 110] : Str), Wire.encStr f1__], Json.arr #[Wire.encStr ([104, 111, 108, 100, 101, 114, 95, 116, 121, 112, 101] : Str), (Wire.encOpt Wire.encStr) f2__], Json.arr #[Wire.encStr ([105, 110, 105, 116, 105, 97, 108] : Str), Wire.encStr f3__], Json.arr #[Wire.encStr ([114, 101, 103, 105, 115, 116, 114, 97, 116, 105, 111, 110, 95, 99, 111, 117, 110, 116] : Str), Wire.encInt f4__]])]) (Gen.in__gstin.info x0)) : Option String).getD "badargs"
+    | _ => "badargs"
   | "is_valid" => match args with
     | [a0] => (do let x0 ← Wire.decStr a0; pure (Wire.respondWith Wire.encBool (Gen.in__gstin.is_valid x0)) : Option String).getD "badargs"
     | _ => "badargs"
